@@ -201,6 +201,22 @@ macro_rules! beh_job {
               );
             }
           }
+          // it is a subject: every clone reports itself finished / closed exactly
+          // after a terminal or unsubscribe() through any clone
+          for (i, hh) in h.iter().enumerate() {
+            if hh.is_finished() == open || hh.is_closed() == open {
+              obs.fail(
+                format!("c12:{}:api-finished", $label),
+                format!(
+                  "after [{}]: the subject is {}, h{i}.is_finished()={} is_closed()={}",
+                  hist.join(" "),
+                  if open { "open" } else { "terminated / unsubscribed" },
+                  hh.is_finished(),
+                  hh.is_closed()
+                ),
+              );
+            }
+          }
           for (i, hh) in h.iter().enumerate() {
             let pk = hh.peek();
             if pk != value {
@@ -256,7 +272,7 @@ pub fn plan(tier: Tier) -> Plan {
       prop: "C12".into(),
       tier: tier_name(tier),
       engine: "E1 opseq".into(),
-      rule: "every operation sequence up to the length bound over {subscribe via either handle, unsubscribe(k), next(0)@h0, next(1)@h1, next_by(+1) via either handle, re-clone, complete, error, unsubscribe-subject} with up to 3 subscribers on BehaviorSubject over Subject and over SubjectThreads; after every operation every probe trace must be [value current at subscription, then exactly the later items, terminal] and peek() of every handle must be the most recent value; non-trivial = a probe received something".into(),
+      rule: "every operation sequence up to the length bound over {subscribe via either handle, unsubscribe(k), next(0)@h0, next(1)@h1, next_by(+1) via either handle, re-clone, complete, error, unsubscribe-subject} with up to 3 subscribers on BehaviorSubject over Subject and over SubjectThreads; after every operation every probe trace must be [value current at subscription, then exactly the later items, terminal] and peek() of every handle must be the most recent value, is_finished() / is_closed() of every handle true exactly after a terminal or unsubscribe(); non-trivial = a probe received something".into(),
       bounds: json!({"ops_len": len, "subscribers": MAX_SUBS, "handles": 2}),
       assumptions: vec![],
     },
